@@ -13,7 +13,15 @@ def pmat(nrow, ncol, edges):
     return '{| p_ncol := %d; p_rows := %s |}' % (ncol, clist(rows, lambda r: clist(r, cnat)))
 
 
-def mspec(nrow, ncol, edges, dtype='int', fmt='csr'):
+def mspec(nrow, ncol, edges, dtype='int', fmt='csr', rng=None):
+    """Weights are ignored by this module: besides unit weights, signed weights (whose sums over the reached
+    in-neighbours can cancel) and small unsigned integers (whose sums can wrap) are valid inputs."""
+    if rng is not None and dtype != 'bool':
+        kind = rng.choice(['unit', 'unit', 'signed', 'uint8'])
+        if kind == 'signed':
+            return {'shape': [nrow, ncol], 'coo': [[i, j, rng.choice([-2, -1, 1, 2])] for (i, j) in edges], 'dtype': dtype, 'fmt': fmt}
+        if kind == 'uint8':
+            return {'shape': [nrow, ncol], 'coo': [[i, j, rng.choice([128, 64, 255, 1])] for (i, j) in edges], 'dtype': 'uint8', 'fmt': fmt}
     return {'shape': [nrow, ncol], 'coo': [[i, j, 1] for (i, j) in edges], 'dtype': dtype, 'fmt': fmt}
 
 
@@ -70,7 +78,7 @@ def run(ctx, scratch):
     cases = []   # (kind, family, impl_args, coq_expr, meta)
 
     def add_dist(fam, nrow, ncol, edges, source=None, source_row=None, source_col=None, transpose=False, fb=False):
-        args = dict(m=mspec(nrow, ncol, edges, dtype=rng.choice(['int', 'bool', 'float'])),
+        args = dict(m=mspec(nrow, ncol, edges, dtype=rng.choice(['int', 'bool', 'float']), rng=rng),
                     source=src_impl(rng, source), source_row=src_impl(rng, source_row),
                     source_col=src_impl(rng, source_col), transpose=transpose, force_bipartite=fb)
         expr = 'get_distances %s %s %s %s %s %s' % (pmat(nrow, ncol, edges), src_lit(source), src_lit(source_row),
@@ -78,7 +86,7 @@ def run(ctx, scratch):
         cases.append(('dist', fam, args, expr, None))
 
     def add_sp(fam, nrow, ncol, edges, source=None, source_row=None, source_col=None, fb=False):
-        args = dict(m=mspec(nrow, ncol, edges), source=src_impl(rng, source), source_row=src_impl(rng, source_row),
+        args = dict(m=mspec(nrow, ncol, edges, rng=rng), source=src_impl(rng, source), source_row=src_impl(rng, source_row),
                     source_col=src_impl(rng, source_col), force_bipartite=fb)
         expr = 'get_shortest_path false true %s %s %s %s %s' % (  # the routing the property demands (the binding the code uses is the obligation shortest_path_routing)
             
@@ -86,7 +94,7 @@ def run(ctx, scratch):
         cases.append(('sp', fam, args, expr, None))
 
     def add_dag(fam, n, edges, order):
-        args = dict(m=mspec(n, n, edges), order=order)
+        args = dict(m=mspec(n, n, edges, rng=rng), order=order)
         expr = '@Ok graph (get_dag %s %s)' % (clist(gen.rows_of(n, edges), lambda r: clist(r, cnat)), clist(order, cz))
         cases.append(('dag', fam, args, expr, None))
 
@@ -185,7 +193,7 @@ def run(ctx, scratch):
         for _ in range(150 if quick else 1500):
             n, E, fam = gen.random_graph(rng, nmax, directed=rng.random() < 0.5)
             s = rng.randrange(n)
-            r = impl.call('c10', 'bfs', dict(m=mspec(n, n, E), source=s))
+            r = impl.call('c10', 'bfs', dict(m=mspec(n, n, E, rng=rng), source=s))
             ctx.traces += 1
             ctx.count('bfs:' + fam, ('bfs', n, E, s), len(E) > 0)
             dist = _bfs(n, E, [s])
